@@ -41,7 +41,8 @@ META = dict(
               'Onsager.C22.C22_reduce', 'Onsager.Geom.cauchy_schwarz', 'Onsager.Geom.boxB_complete', 'Onsager.Geom.psdCert_sound'],
     tie_theorems=[],
     rule='one case = (crystal, Nmesh): zoo incl. scaled lattice constants (a = 3, 4, 10), random rational-metric lattices of every '
-         'Bravais family (2D/3D, obtuse/acute rhombohedral, needle/plate, skewed noreduce cells), mesh divisions 1..6 per axis '
+         'Bravais family (2D/3D, obtuse/acute rhombohedral, needle/plate, skewed noreduce cells), well-known cells (FCC, BCC, SC, HCP, '
+         'triclinic, 2-D) re-described by unimodular matrices with entries up to +-4 and kept as given (noreduce=True), mesh divisions 1..6 per axis '
          '(even and odd, anisotropic); invariant test functions from lattice-vector shells; non-trivial = mesh with more than one '
          'point; distinct by (metric, basis, Nmesh)',
     trusted=['conversion k -> q = (lattice^T k)/(2 pi) snapped to denominators 2N (checked residual)'],
@@ -244,6 +245,17 @@ def crystals(ctx, nrand):
     from onsager import crystal
     rng = ctx.rng
     out = []
+    # well-known cells re-described with strongly skewed lattice vectors (noreduce=True): folding into the zone needs many sweeps
+    fixed = [('HCP', [[1, 3, -2], [0, 1, 4], [0, 0, 1]]), ('triclinic', [[1, 3, -2], [0, 1, 4], [0, 0, 1]]), ('triangular', [[1, 3], [0, 1]])]
+    if not ctx.quick: fixed.append(('FCC', [[1, 3, -2], [0, 1, 4], [0, 0, 1]]))   # 48 operations: slow to construct
+    nskew = 4 if ctx.quick else 40
+    for t in range(nskew):
+        try:
+            if t < len(fixed): name, crys = LG.skewed_crystal(rng, base=fixed[t][0], m=fixed[t][1], scale=Fr(1))
+            else: name, crys = LG.skewed_crystal(rng)
+            out.append(LG.XCrystal(crys, name)); ctx.count('crystals:strongly-skewed-noreduce')
+        except LG.SnapFail: ctx.count('snap-fail')
+        except Exception as e: ctx.count('crystal-construction-error:' + type(e).__name__)
     for name, th in LG.zoo():
         try: out.append(LG.XCrystal(th(), name))
         except LG.SnapFail: ctx.count('snap-fail')
@@ -253,6 +265,7 @@ def crystals(ctx, nrand):
         except LG.SnapFail: ctx.count('snap-fail')
     plan = ['rhomb-acute', 'rhomb-obtuse', 'hexagonal', 'monoclinic', 'triclinic', 'needle', 'fcc', 'bcc', 'cubic', 'tetragonal', 'orthorhombic']
     for t in range(nrand):
+        if ctx.quick and ctx.elapsed() > 50: ctx.note('budget: %d of %d random crystals generated' % (t, nrand)); break
         try:
             if t % 4 == 3: name, crys = LG.random_crystal(rng, dim=2, maxchem=1, maxatoms=2)
             else: name, crys = LG.random_crystal(rng, dim=3, kinds=[plan[(t // 2) % len(plan)]] if t % 2 == 0 else None, maxchem=1, maxatoms=2)
@@ -279,6 +292,7 @@ def run_cases(ctx, Xs, use_lean=True):
         if not meshes or not ctx.quick:
             meshes.append(tuple(rng.randint(1, nmax) if rng.random() < 0.5 else rng.choice([3, 4]) for _ in range(X.d)))
         if X.name in ('FCC-a4', 'HCP-a3') and (5,) * X.d not in meshes: meshes.append((5,) * X.d)
+        if 're-described' in X.name: meshes.append((6,) * X.d if ctx.quick else tuple(rng.choice([4, 5, 6]) for _ in range(X.d)))
         for N in meshes:
             try:
                 kfull = crys.fullkptmesh(list(N))
